@@ -40,6 +40,10 @@ RAISERS = {
     'deepfmt': 'select ' + '(' * 300 + '1' + ')' * 300,  # reindent: RecursionError -> SQLParseError inside the generator
     'badtype': None,
     'latin': b'select \xff\xfe from t',
+    # calls that raise in the middle of a statement filter, inside nested context managers (indent/offset counters)
+    'deepaligned': 'select * from ' + '(select a from ' * 340 + 't' + ')' * 340,
+    'alignedcase': 'select * from (select case , end)',
+    'deepreindent': 'select * from ' + '(select a from ' * 340 + 't' + ')' * 340,
 }
 
 
@@ -115,6 +119,10 @@ def run_op(op, keep):
         w = op[1]
         if w == 'deepfmt':
             return call_format({'reindent': True}, RAISERS[w])
+        if w in ('deepaligned', 'alignedcase'):
+            return call_format({'reindent_aligned': True}, RAISERS[w])
+        if w == 'deepreindent':
+            return call_format({'reindent': True, 'comma_first': True}, RAISERS[w])
         if w == 'latin':
             try:
                 return 'OK ' + json.dumps([str(s) for s in sqlparse.parse(RAISERS[w], encoding='ascii')])
